@@ -51,6 +51,14 @@ CHECKS.update({
             "Restricted to keys valid at the time (the revoked-latest corner must consult the metastore).", "6/C20"),
 })
 
+CHECKS["C19"] = dict(
+  text="Coq theorems for EVERY request sequence and EVERY SDK behaviour behind the handler: exactly one response per request, no sequence reaches the nil-dereference state "
+       "(incl. rejected get-session followed by anything or end of stream), encrypt/decrypt before a successful get-session and every second get-session are error responses "
+       "without touching the SDK, after a successful get-session responses are exactly the SDK's answers. Tie: ALL sequences up to a bounded length over 9 request kinds plus random "
+       "longer ones run through the real handler over an in-memory stream and compared with the model inside Coq; monitor: one response per request, no nil response, no panic.",
+  note="Trusted: Coq kernel+VM, closed under the global context; gRPC transport replaced by an in-memory stream; protobuf getters. The SDK is abstract in the theorems so C01/C06/C07 transfer.",
+  technique="Coq proof (state machine, induction over request sequences) + exhaustive small-scope differential correspondence", design="6/C19")
+
 NOT_APPLICABLE = []
 
 
